@@ -243,6 +243,27 @@ template<typename T> void enumerate(int maxlen, int depth, Stats &st) {
     }
 }
 
+// Long arrays: whatever the implementation does differently above some length is on both sides of it here (every construction path x length, every operation, every second operation).
+template<typename T> void wide(const std::vector<int> &lens, Stats &st) {
+    for (int ctor = 0; ctor < NCTORS; ctor++) for (int len : lens) {
+        if (ctor == K_DEFAULT || ctor == K_INIT) continue;      // (an initializer list has a static length: 0..4 in the search above)
+        Sys<T> sys; sys.cfg = Config{ctor, len, Sys<T>::type_id};
+        std::vector<Op> alpha;
+        for (int k : {CC, MC, CAB, MAB, SW, SELF, CAE}) alpha.push_back(Op{k, 0});
+        for (int n : std::set<int>{0, 1, len / 2, len - 1, len, len + 1, 2 * len}) { alpha.push_back(Op{RS, n}); alpha.push_back(Op{RV, n}); }
+        for (int i : std::set<int>{0, len / 2, len - 1}) alpha.push_back(Op{WR, i});
+        if (deadline_passed()) { shm->exhaustive = 0; return; }
+        typename Sys<T>::M base; mark(hist_str(sys.cfg, {})); sys.step({}, nullptr, base); st.evals++; st.states++;
+        for (auto &o : alpha) {
+            if (!sys.pre(base, o)) continue;
+            mark(hist_str(sys.cfg, {}, &o));
+            typename Sys<T>::M after; sys.step({}, &o, after); st.transitions++; st.evals++; st.nontrivial++;
+            std::vector<Op> h2{o};
+            for (auto &o2 : alpha) { if (!sys.pre(after, o2)) continue; mark(hist_str(sys.cfg, h2, &o2)); typename Sys<T>::M m3; sys.step(h2, &o2, m3); st.transitions++; st.evals++; st.nontrivial++; }
+        }
+    }
+}
+
 // "exactly those values": a fill value must arrive bit for bit (negative zero compares equal to zero, a NaN to nothing; both have their own representation)
 template<typename F> void fill_values(const char *tn) {
     const F vals[] = {F(0), -F(0), F(1.5), std::numeric_limits<F>::quiet_NaN(), std::numeric_limits<F>::denorm_min(), -std::numeric_limits<F>::denorm_min(), std::numeric_limits<F>::infinity()};
@@ -265,6 +286,12 @@ void explore() {
     bfs<Tracked>(maxlen, seen, st);
     bfs<Cell>(maxlen, seen, st);
     uint64_t bt = st.transitions, bs = st.states;
+    {
+        std::vector<int> lens; for (int n = maxlen + 1; n <= (thorough() ? 70 : 66); n++) if (thorough() || n <= 9 || (n >= 15 && n <= 18) || (n >= 31 && n <= 34) || n >= 63) lens.push_back(n);
+        wide<int>(lens, st); wide<Tracked>(lens, st); wide<Cell>(lens, st);
+        sx::detail(fmt("long arrays (%d..%d%s) from every construction path: every operation and every second operation, resize targets 0, 1, half, length-1, length, length+1, 2 x length, writes to the first, middle and last element",
+                       lens.front(), lens.back(), thorough() ? "" : ": 4..9, 15..18, 31..34, 63..66"));
+    }
     int depth = thorough() ? 4 : 3;
     enumerate<int>(2, depth, st);
     enumerate<Tracked>(2, depth, st);
